@@ -36,4 +36,15 @@ def mkEngine {I O : Type} [FromJson I] [FromJson O] [ToJson O] [BEq O]
     let j := judge i o
     pure { agree := m == o, dom := dom i, ok := j.isNone, clause := j.getD "", model := toJson m }
 
+/-- as `mkEngine`, but model and implementation are compared on a projection of the observation:
+    exactly what the property speaks about (the Φ checker still sees the whole observation) -/
+def mkEngineP {I O P : Type} [FromJson I] [FromJson O] [ToJson O] [BEq P]
+    (model : I → O) (proj : I → O → P) (dom : I → Bool) (judge : I → O → Option String) : Engine :=
+  fun ji jo => do
+    let i ← fromJson? ji
+    let o ← fromJson? jo
+    let m := model i
+    let j := judge i o
+    pure { agree := proj i m == proj i o, dom := dom i, ok := j.isNone, clause := j.getD "", model := toJson m }
+
 end Pgs
